@@ -24,7 +24,7 @@ def run_random(args):
     import srvworld as SW
     rnd = random.Random(seed)
     p = dict(nclients=5, p_raise=0.02, loss=0.03, garbage=0.1, interval=1 / 60, conn_timeout=2.0, p_connect=0.02, p_send=0.1, p_disc=0.005, p_silent=0.005, p_kick=0.05,
-             blocklist=(), replay=0.02, hello_flood=0.0, reuse_addr=0.3, keepalive=None, stop_at=None)
+             blocklist=(), replay=0.02, hello_flood=0.0, reuse_addr=0.3, keepalive=None, stop_at=None, p_rechal=0.0)
     p.update(kw)
     w = SW.ServerWorld(seed=seed, interval=p["interval"], conn_timeout=p["conn_timeout"], handler_raise=p["p_raise"], blocklist=p["blocklist"], keepalive=p["keepalive"])
     try:
@@ -57,6 +57,8 @@ def run_random(args):
                         cl.send(tag + kind + w.uniq.to_bytes(4, "big") + bytes(rnd.getrandbits(8) for _ in range(rnd.choice([4, 50, 1500, 3000]))), retry=rnd.choice([0, -1]))
                     elif r < p["p_send"] + p["p_disc"]:
                         w.client_disconnect(cid)
+                    elif p["p_rechal"] and rnd.random() < p["p_rechal"]:
+                        w.resend_challenge(cid)
                     elif r < p["p_send"] + p["p_disc"] + p["p_silent"]:
                         c["cut"] = True
                         c["deaf"] = True
